@@ -13,6 +13,7 @@ structure Closed (env : Env) (P : J → Prop) (KP : List String → Prop) : Prop
   null : P .null
   str : ∀ s, P (.str s)
   bool : ∀ b, P (.bool b)
+  leaf : ∀ k p, P (.leaf k p)
   arr : ∀ ys, (∀ y ∈ ys, P y) → P (.arr ys)
   obj : ∀ kvs, (∀ kv ∈ kvs, P kv.2) → KP (kvs.map (·.1)) → P (.obj kvs)
   elem : ∀ ys y, P (.arr ys) → y ∈ ys → P y
@@ -242,7 +243,11 @@ mutual
     | .bool b, _, v, h => by simp [Spec.resolve] at h; subst h; exact hc.str _
     | .int i, _, v, h => by simp [Spec.resolve] at h; subst h; exact hc.str _
     | .num r, _, v, h => by simp [Spec.resolve] at h; subst h; exact hc.str _
-    | .leaf _ p, _, v, h => by simp [Spec.resolve] at h; subst h; exact hc.str _
+    | .leaf k p, _, v, h => by
+      simp only [Spec.resolve, Option.some.injEq] at h; subst h
+      split
+      · exact hc.leaf _ _
+      · exact hc.str _
     | .arr xs, hk, v, h => by
       simp only [Spec.resolve, Option.map_eq_some_iff] at h
       obtain ⟨ys, hys, rfl⟩ := h
